@@ -545,6 +545,19 @@ pub fn structured(ctx: &Ctx, entries: &[String], seed: u64, nbases: usize, max_p
                     if op.starts_with("truncate") {
                         continue; // truncation is swept byte-wise below
                     }
+                    if op == "challenge_flood" {
+                        if entry == "valve::query" {
+                            let mut b = base_for(&mut StdRng::seed_from_u64(bseed), ctx, entry);
+                            if source_entry(entry, &b.cfg) {
+                                static FLOOD: std::sync::OnceLock<Vec<(Vec<u8>, u32, u32)>> = std::sync::OnceLock::new();
+                                let blobs = FLOOD.get_or_init(|| valve::bz2_challenges(1100, 65000));
+                                let reactions: Vec<Vec<Vec<u8>>> = blobs.iter().map(|(body, size, crc)| valve::split_body(&mut rng, &ctx.v, body, *size, *crc, 1, false, true, true)).collect();
+                                b.conns = vec![(false, reactions)];
+                                run_case(&b, &json!({"stage":"structured","mutation":d,"rounds":1100}), rep, trace, journal);
+                            }
+                        }
+                        continue;
+                    }
                     if op == "decompression_bomb" {
                         for declared in [4096u32, 8 * 1024 * 1024 - 1] {
                             let mut b = base_for(&mut StdRng::seed_from_u64(bseed), ctx, entry);
